@@ -8,8 +8,8 @@
    output of a program on an example is an oracle (property C01), [libm_atan]
    and [libm_exp] are the C library's functions. *)
 From Coq Require Import ZArith List Bool Reals.
-From Flocq Require Import IEEE754.BinarySingleNaN.
-From VV Require Import Base.F64 Lambda.LambdaDefs Lambda.LambdaProofs Lambda.LambdaHeap Lambda.LambdaFloat.
+From Flocq Require Import Core IEEE754.BinarySingleNaN.
+From VV Require Import Base.F64 Lambda.LambdaDefs Lambda.LambdaProofs Lambda.LambdaHeap Lambda.LambdaFloat Lambda.LambdaWelford.
 Import ListNotations.
 Local Open Scope Z_scope.
 
@@ -125,20 +125,47 @@ Theorem C08_gaussian_label_lt_classes : forall libm_exp classes train g o, (0 < 
 Proof. exact gauss_build_label. Qed.
 Print Assumptions C08_gaussian_label_lt_classes.
 
-(* FULL statement wanted:  forall classes train g o, gauss_build classes train = Some g ->
-                           le01 (snd (gauss_tag libm_exp g o)).
-   Proved: the same for ANY per-class (mean, variance) table whose variances
-   are NaN (empty class) or >= 0, every query output (NaN, +-inf, undefined
-   included).  Missing: that Welford's m2 stays >= 0 under binary64 rounding
-   for every training set (the harness checks it on every run instead).
+(* the gaussian confidence is in [0,1] for EVERY training set (empty classes,
+   single examples, identical outputs, outputs beyond the +-1e7 clamp,
+   undefined outputs) and EVERY query output (NaN, +-inf, undefined included).
    H_libm: exp(NaN) is NaN; exp(x) in [0,1] for x <= 0. *)
-Theorem C08_gaussian_confidence_01_partial : forall libm_exp : f64 -> f64,
+Theorem C08_gaussian_confidence_01 : forall libm_exp : f64 -> f64,
+  (forall x : f64, is_nan x = true -> is_nan (libm_exp x) = true) ->
+  (forall x : f64, F64.leb x F64.zero = true -> le01 (libm_exp x)) ->
+  forall classes train g o, Z.of_nat (length train) <= 2 ^ 64 ->
+  gauss_build classes train = Some g -> le01 (snd (gauss_tag libm_exp g o)).
+Proof. exact gaussian_confidence_01. Qed.
+Print Assumptions C08_gaussian_confidence_01.
+
+(* the same for ANY per-class (mean, variance) table whose variances are NaN
+   or >= 0 (+inf allowed): what a de-serialised model may contain *)
+Theorem C08_gaussian_confidence_01_for_tables : forall libm_exp : f64 -> f64,
   (forall x : f64, is_nan x = true -> is_nan (libm_exp x) = true) ->
   (forall x : f64, F64.leb x F64.zero = true -> le01 (libm_exp x)) ->
   forall stats o, Forall (fun mv => var_ok (snd mv)) stats ->
   le01 (snd (gauss_tag_stats libm_exp stats o)).
 Proof. exact gaussian_confidence_01_stats. Qed.
-Print Assumptions C08_gaussian_confidence_01_partial.
+Print Assumptions C08_gaussian_confidence_01_for_tables.
+
+(* distribution<double> under add() (Welford, as the code writes it, in
+   binary64): variance() of every class of every training set is NaN (no
+   example) or >= 0 *)
+Theorem C08_welford_variance_nan_or_nonneg : forall classes train g,
+  Z.of_nat (length train) <= 2 ^ 64 ->
+  gauss_build classes train = Some g -> Forall (fun mv => var_ok (snd mv)) (gauss_stats g).
+Proof. exact gauss_build_var_ok. Qed.
+Print Assumptions C08_welford_variance_nan_or_nonneg.
+
+(* ... because the updated mean RN(m + RN(RN(x - m) / c)) lies between the old
+   mean m and the new value x for doubles x, m and a count c >= 2 (c >= 1 for
+   the first value), so delta and (x - mean_new) never have opposite signs *)
+Theorem C08_welford_mean_between : forall x m c : R,
+  generic_format radix2 (SpecFloat.fexp 53 1024) x -> generic_format radix2 (SpecFloat.fexp 53 1024) m ->
+  (2 <= c \/ (x = m /\ 1 <= c))%R ->
+  let m1 := RN (m + RN (RN (x - m) / c)) in
+  ((m <= x -> m <= m1 <= x) /\ (x <= m -> x <= m1 <= m))%R.
+Proof. exact mean_between. Qed.
+Print Assumptions C08_welford_mean_between.
 
 Theorem C08_binary_label_01 : forall o, (fst (binary_tag o) < 2)%nat.
 Proof. exact binary_label_01. Qed.
@@ -205,3 +232,6 @@ Example C08_ex_var_ok : Forall (fun mv : f64 * f64 => var_ok (snd mv)) [(F64.zer
 Proof. constructor; [right; reflexivity|]. constructor; [left; reflexivity|constructor]. Qed.
 Example C08_ex_dyn_build : exists d, dyn_build (fun _ => F64.zero) 2 2 [(Some L.one, 1%nat); (None, 0%nat)] = Some d.
 Proof. eexists. vm_compute. reflexivity. Qed.
+Example C08_ex_gauss_build : exists g, gauss_build 3 [(Some L.one, 0%nat); (Some L.cut, 0%nat); (None, 2%nat)] = Some g /\
+  length g = 3%nat.
+Proof. eexists. split; [unfold gauss_build; cbn [gauss_fill repeat nth_error set_nth]; reflexivity|reflexivity]. Qed.
